@@ -621,3 +621,12 @@ def run(cx):
                            f"{b.path} calls {callee}: not one of the slice-based (bounded) (de)serialisers - a reader-based decoder can panic or over-allocate on a hostile length prefix",
                            chain[-1], prog.bodies[chain[-1]].loc(c.bb) if chain[-1] in prog.bodies else None)
         ob.floor(n, 8, "calls inspected")
+
+    with cx.ob("C17.9", "R-CALLERS", "status, message and headers travel untouched between handler and typed client: header conversions are field-to-field and the codec path calls nothing that could rewrite them (C07.4, C07.6 re-evaluated)") as ob:
+        from . import c07
+        sub = cx.__class__("C17", prog, cx.tier, cx.config, cx.tree, repo=cx.repo)
+        c07.run(sub)
+        w = [x for x in sub.obs if x.oid in ['C07.4', 'C07.6']]
+        ob.count(sum(x.evals for x in w))
+        bad = [v for x in w for v in x.violations]
+        ob.require(len(w) == 2 and not bad, "headers-intact/codec-path-does-not-rewrite", "the wire path between handler and client can alter headers or status: " + "; ".join(str(v.msg) for v in bad)[:300], "anemo::types::response::RawResponseHeader::from_header")
